@@ -167,6 +167,9 @@ class _Ctx:
                 walk(ch)
             if isinstance(n, ast.Call) and self.must_run_in_place(n):
                 out.append(n)
+            elif isinstance(n, ast.Call) and isinstance(n.func, ast.Name) and n.func.id in ("list", "tuple") and len(n.args) == 1 and not n.keywords \
+                    and n is not e and self._needs_unfold(n.args[0]):
+                out.append(n)      # ``list(<pipeline that runs package code>)`` inside a larger expression: taken out, then spelled as its loop
         walk(e)
         return out
 
